@@ -160,7 +160,7 @@ CHECKS["C05"] = {
         {"name": "session", "pkg": "internal/session", "pkgname": "session", "entry": "VerifC01Session", "files": ["zz_verif_c18.go", "zz_verif_c18b.go", "zz_verif_c01.go"],
          "with": ["state_export", "backend_export", "verifdb"],
          "extra_overlay": {"internal/response/zz_verif_decode.go": "internal/response/zz_verif_decode.go"},
-         "params": {"quick": grid(k=[3]), "thorough": grid(k=[3])},
+         "params": {"quick": grid(k=[3], c05only=[1]), "thorough": grid(k=[3], c05only=[1])},
          "cover": ["held-back", "own-search"]},
     ],
     "stubs": CHECKS["C01"]["stubs"],
